@@ -193,6 +193,13 @@ func stubStart(cfg *stubCfg, self party.ID, ids []party.ID) StartFunc {
 }
 
 // drain takes every message currently in the handler's out channel (non-blocking).
+// acceptDrain delivers m and then empties the handler's outgoing channel, as the consumer of Listen() does in every real
+// deployment (the channel holds 2N messages; a run of more than 3 rounds fills it otherwise and Accept blocks).
+func acceptDrain(h Handler, m *Message) {
+	h.Accept(m)
+	drain(h)
+}
+
 func drain(h Handler) []*Message {
 	var out []*Message
 	ch := h.Listen()
